@@ -72,10 +72,25 @@ class Real(object):
             elif op == "setitem":
                 it, nid = self.new(e["n"])
                 ev.update(k=e["k"], n=e["n"], nid=nid)
-                sec[e["k"]] = it
+                self.calls = getattr(self, "calls", 0) + 1
+                k = e["k"]
+                # every second call goes through attribute assignment (section.KEY = item), which must mean the same:
+                # replace if KEY is present; append if it is absent and the item carries that very name
+                present = k in sec
+                if self.calls % 2 == 0 and k.isidentifier() and k not in LIST_ATTRS and (present or it.mnemonic == k):
+                    setattr(sec, k, it)
+                    ev["via"] = "attr"
+                else:
+                    sec[k] = it
             elif op == "setvalue":
                 ev.update(k=e["k"], v=e["v"])
-                sec[e["k"]] = e["v"]
+                self.calls = getattr(self, "calls", 0) + 1
+                k = e["k"]
+                if self.calls % 2 == 0 and k.isidentifier() and k not in LIST_ATTRS and k in sec:
+                    setattr(sec, k, e["v"])          # section.KEY = value
+                    ev["via"] = "attr"
+                else:
+                    sec[k] = e["v"]
             elif op == "get":
                 ev.update(k=e["k"], add=bool(e["add"]))
                 r = sec.get(e["k"], add=bool(e["add"]))
@@ -107,6 +122,16 @@ class Real(object):
                     q["attr"] = 0
             else:
                 q["attr"] = -1
+            q["las"] = -1
+            las = getattr(self, "las", None)
+            if las is not None and self.kind == "curve" and sec is las.curves and k in [i.mnemonic for i in list.__iter__(sec)]:
+                try:
+                    arr = las[k]
+                    if arr is not None:        # (items made by get(add=True) on an empty section carry no data)
+                        owner = [c for c in list.__iter__(sec) if c.data is arr]
+                        q["las"] = self.ident(owner[0]) if owner else -2
+                except KeyError:
+                    q["las"] = 0
             ks.append(q)
         ints = []
         for i in range(-n - 1, n + 1):
@@ -120,6 +145,23 @@ class Real(object):
             slices.append({"a": a, "b": b, "ids": [self.ident(x) for x in list.__iter__(r)],
                            "cls": type(r).__name__})
         return {"op": "probe", "exc": "", "keys": ks, "ints": ints, "slices": slices, "post": self.project()}
+
+
+def roundtrip_event(real):
+    """Write the LASFile that holds the section and read it back (preserve case); project the same section."""
+    import io
+    las = real.las
+    ev = {"op": "roundtrip", "exc": "", "post": []}
+    try:
+        s = io.StringIO()
+        las.write(s)
+        back = lasio.read(s.getvalue(), mnemonic_case="preserve")
+    except Exception as e:
+        ev["exc"] = "%s: %s" % (type(e).__name__, str(e)[:80])
+        return ev
+    sec = back.curves if real.kind == "curve" else back.params
+    ev["post"] = [{"id": 0, "o": it.original_mnemonic, "s": it.mnemonic, "v": 0} for it in list.__iter__(sec)]
+    return ev
 
 
 def canon(xf, items):
@@ -220,7 +262,11 @@ def replay_edges(ctx, edges, keypool, kind="header", limit=None, rng=None):
         pre = canon(ed["xf"], ed["pre"])
         if pre not in path:
             raise tlc.MachineryError("model state without a path: %r" % (pre,))
-        real = Real(ed["xf"], kind)
+        las = lasio.LASFile()
+        host = las.curves if kind == "curve" else las.params
+        host.mnemonic_transforms = bool(ed["xf"])
+        real = Real(ed["xf"], kind, section=host)
+        real.las = las
         for e in path[pre]:
             real.apply(e)
         tr = [{"op": "init", "exc": "", "xf": real.xf, "post": real.project()}]
@@ -228,6 +274,11 @@ def replay_edges(ctx, edges, keypool, kind="header", limit=None, rng=None):
         ev = real.apply(ed["e"])
         tr.append(ev)
         tr.append(real.probe(probe_keys(real, keypool)))
+        if not real.xf and ix % 7 == 0 and all(isinstance(c, (CurveItem if kind == "curve" else HeaderItem))
+                                                 and (kind != "curve" or (c.data is not None and len(c.data) == 2))
+                                                 for c in list.__iter__(host)) and all(":" not in i["o"] and "." not in i["o"]
+                                                                                     for i in ev["post"]):
+            tr.append(roundtrip_event(real))
         ctx.evaluations += 1
         traces.append(tr)
         meta.append({"path": path[pre], "e": ed["e"], "xf": ed["xf"], "kind": kind})
